@@ -6,7 +6,7 @@ import re
 
 from .. import oracles as O
 from ..fold import Scope, dotted, src
-from .common import (attr_stores, conj_of_facts, ctx, ff_for, find_calls, must_pass, node_calls, own_nodes, path_text, substitute_src)
+from .common import (attr_stores, conj_of_facts, ctx, ff_for, find_calls, guarded_raise_probes, must_pass, node_calls, own_nodes, path_text, substitute_src)
 from .edscommon import ATTR_KEYS, E, OD, reader_pairs, signed_widths, writer_pairs
 
 EXPLANATION = (
@@ -240,23 +240,27 @@ def run(chk):
     # REAL: float; every other type: int), decided by specialising _convert_variable per type code
     kinds_bad = kinds_unknown = None
     n_types = 0
+    mod_funcs = {n.name: n for n in cv.mod.tree.body if isinstance(n, ast.FunctionDef) and n is not cv.node}
     for tname, code in sorted(((k, v[0]) for k, v in O.DATA_TYPES.items()), key=lambda kv: kv[1]):
         if tname in ("OCTET_STRING", "DOMAIN"):
-            text, want = "cafe01", bytes.fromhex("cafe01")
+            cases = [(t_, bytes.fromhex(t_)) for t_ in ("cafe01", "00a1b2", "0A1B2C", "00", "0010")]
         elif tname in ("VISIBLE_STRING", "UNICODE_STRING"):
-            text, want = "cafe01", "cafe01"
+            cases = [("cafe01", "cafe01"), ("0x10", "0x10"), ("007", "007")]
         elif tname.startswith("REAL"):
-            text, want = "1.5", 1.5
+            cases = [("1.5", 1.5), ("-0.25", -0.25)]
         else:
-            text, want = "0x10", 16
-        r = partial_eval(folder, cv.node, cv.mod, None, {"node_id": None, "var_type": code, "value": text})
-        if r[0] == "unknown":
-            kinds_unknown = f"{tname}: {r[1]}"
+            cases = [("0x10", 16), ("0", 0), ("10", 10)]
+        for text, want in cases:
+            r = partial_eval(folder, cv.node, cv.mod, None, {"node_id": None, "var_type": code, "value": text}, mod_funcs)
+            if r[0] == "unknown":
+                kinds_unknown = f"{tname}: {r[1]}"
+                break
+            if r != ("return", want) or type(r[1]) is not type(want):
+                kinds_bad = f"a {tname} value `{text}` becomes {r[1]!r} ({'exception' if r[0] == 'raise' else type(r[1]).__name__}); expected {want!r}"
+                break
+        if kinds_unknown or kinds_bad:
             break
         n_types += 1
-        if r != ("return", want) or type(r[1]) is not type(want):
-            kinds_bad = f"a {tname} value `{text}` becomes {r[1]!r} ({'exception' if r[0] == 'raise' else type(r[1]).__name__}); expected {want!r}"
-            break
     if kinds_unknown:
         chk.notes.append(f"C08.R7 _convert_variable could not be specialised per type ({kinds_unknown})")
     else:
@@ -273,6 +277,8 @@ def run(chk):
     ok = len(rel) == 1 and any(p and src(e) == "'$NODEID' in var.default_raw" for e, p in fb.facts_at(rel[0]))
     chk.check(ok, "R7", f"{E}:build_variable | relative flag from the raw default", bv.loc(), "")
     calls = node_id_in_force(chk, "R7")
+    # every node id 1..127 is legal, as argument and as the file's NodeID: no validation in import_eds refuses the ends of the range
+    guarded_raise_probes(chk, "R7", ie, ff_for(chk, ie, "C08.R7"), "node_id", (1, 2, 126, 127), "node ids 1..127")
     # an option that does not convert is skipped alone: no try body may handle two of the optional values, or the failure of the
     # first (a `$NODEID` default without a node id, an empty DefaultValue) silently drops the second (the ParameterValue)
     OPTS = ("LowLimit", "HighLimit", "DefaultValue", "ParameterValue", "Factor")
